@@ -4,8 +4,12 @@
 // and history_gossip <= history_length, max_transmit_size >= 100 (default and per topic).
 use crate::topic::TopicHash;
 
+/// any parameter value whose double is representable (2*mesh_outbound_min must not
+/// overflow usize: stated precondition, see trusted_base)
 fn small() -> usize {
-    kani::any::<u8>() as usize
+    let x: usize = kani::any();
+    kani::assume(x <= usize::MAX / 2);
+    x
 }
 
 fn mesh_ok(c: &Config, t: Option<&TopicHash>) -> bool {
@@ -16,19 +20,15 @@ fn mesh_ok(c: &Config, t: Option<&TopicHash>) -> bool {
     out <= lo && lo <= n && n <= hi && 2 * out <= n
 }
 
-/// default parameters only (no per-topic configuration at all)
+/// default mesh parameters (no per-topic configuration at all)
 #[kani::proof]
 #[kani::unwind(8)]
-fn build_validates_default_parameters() {
+fn build_validates_default_mesh_parameters() {
     let mut b = ConfigBuilder::default();
     b.mesh_n(small()).mesh_n_low(small()).mesh_n_high(small()).mesh_outbound_min(small());
-    b.history_length(small()).history_gossip(small());
-    b.max_transmit_size(kani::any::<u16>() as usize);
     match b.build() {
         Ok(c) => {
-            assert!(mesh_ok(&c, None));
-            assert!(c.history_gossip() <= c.history_length());
-            assert!(c.max_transmit_size() >= 100);
+            assert!(mesh_ok(&c, None), "C34 accepted config: default mesh parameters violate the mesh inequalities");
             std::mem::forget(c);
         }
         Err(e) => std::mem::forget(e),
@@ -36,24 +36,15 @@ fn build_validates_default_parameters() {
     std::mem::forget(b);
 }
 
-/// a topic configured through the per-topic mesh setters
+/// history_gossip <= history_length
 #[kani::proof]
 #[kani::unwind(8)]
-fn build_validates_topic_configured_by_setters() {
-    let t = TopicHash::from_raw("t");
+fn build_validates_history() {
     let mut b = ConfigBuilder::default();
-    b.mesh_n_for_topic(small(), t.clone());
-    b.mesh_n_low_for_topic(small(), t.clone());
-    b.mesh_n_high_for_topic(small(), t.clone());
-    b.mesh_outbound_min_for_topic(small(), t.clone());
-    if kani::any() {
-        b.max_transmit_size_for_topic(kani::any::<u16>() as usize, t.clone());
-    }
+    b.history_length(small()).history_gossip(small());
     match b.build() {
         Ok(c) => {
-            assert!(mesh_ok(&c, Some(&t)));
-            assert!(mesh_ok(&c, None));
-            assert!(c.max_transmit_size_for_topic(&t) >= 100);
+            assert!(c.history_gossip() <= c.history_length());
             std::mem::forget(c);
         }
         Err(e) => std::mem::forget(e),
@@ -61,21 +52,90 @@ fn build_validates_topic_configured_by_setters() {
     std::mem::forget(b);
 }
 
-/// a topic configured through set_topic_config
+/// default max_transmit_size >= 100
+#[kani::proof]
+#[kani::unwind(8)]
+fn build_validates_default_max_transmit_size() {
+    let mut b = ConfigBuilder::default();
+    b.max_transmit_size(kani::any::<usize>());
+    match b.build() {
+        Ok(c) => {
+            assert!(c.max_transmit_size() >= 100, "C34 accepted config: default max_transmit_size < 100");
+            std::mem::forget(c);
+        }
+        Err(e) => std::mem::forget(e),
+    }
+    std::mem::forget(b);
+}
+
+/// the per-topic parameter set stored for `t`, read from the accepted Config's state
+fn topic_set_ok(c: &Config, t: &TopicHash) -> bool {
+    match c.topic_configuration.topic_mesh_params.get(t) {
+        Some(p) => {
+            p.mesh_outbound_min <= p.mesh_n_low
+                && p.mesh_n_low <= p.mesh_n
+                && p.mesh_n <= p.mesh_n_high
+                && 2 * p.mesh_outbound_min <= p.mesh_n
+        }
+        None => true,
+    }
+}
+
+/// a topic whose mesh parameters AND transmit size are configured (the topic is a key of
+/// max_transmit_sizes): per-topic inequalities and per-topic size
+#[kani::proof]
+#[kani::unwind(8)]
+fn build_validates_topic_with_transmit_size() {
+    let t = TopicHash::from_raw("");
+    let mut b = ConfigBuilder::default();
+    b.set_topic_config(t.clone(), TopicMeshConfig { mesh_n: small(), mesh_n_low: small(), mesh_n_high: small(), mesh_outbound_min: small() });
+    b.max_transmit_size_for_topic(kani::any::<usize>(), t.clone());
+    match b.build() {
+        Ok(c) => {
+            assert!(topic_set_ok(&c, &t));
+            assert!(c.protocol.max_transmit_sizes.get(&t).is_some_and(|s| *s >= 100));
+            std::mem::forget(c);
+        }
+        Err(e) => std::mem::forget(e),
+    }
+    std::mem::forget(b);
+    std::mem::forget(t);
+}
+
+/// a topic configured through one of the per-topic mesh setters only
+#[kani::proof]
+#[kani::unwind(8)]
+fn build_validates_topic_configured_by_setter() {
+    let t = TopicHash::from_raw("");
+    let mut b = ConfigBuilder::default();
+    b.mesh_n_for_topic(small(), t.clone());
+    match b.build() {
+        Ok(c) => {
+            assert!(topic_set_ok(&c, &t), "C34 accepted config: topic configured by mesh_n_for_topic only violates the mesh inequalities");
+            std::mem::forget(c);
+        }
+        Err(e) => std::mem::forget(e),
+    }
+    std::mem::forget(b);
+    std::mem::forget(t);
+}
+
+/// a topic configured through set_topic_config only
 #[kani::proof]
 #[kani::unwind(8)]
 fn build_validates_topic_configured_by_set_topic_config() {
-    let t = TopicHash::from_raw("t");
+    let t = TopicHash::from_raw("");
     let mut b = ConfigBuilder::default();
     b.set_topic_config(t.clone(), TopicMeshConfig { mesh_n: small(), mesh_n_low: small(), mesh_n_high: small(), mesh_outbound_min: small() });
     match b.build() {
         Ok(c) => {
-            assert!(mesh_ok(&c, Some(&t)));
+            assert!(topic_set_ok(&c, &t), "C34 accepted config: topic configured by set_topic_config only violates the mesh inequalities");
             std::mem::forget(c);
         }
         Err(e) => std::mem::forget(e),
     }
     std::mem::forget(b);
+    std::mem::forget(t);
 }
 
 /// the library defaults are accepted (the contract above is not vacuous)
